@@ -66,7 +66,7 @@ Proof.
     rewrite IH. cbn [length]. replace (S (length l) + length g) with (length l + S (length g)) by lia. reflexivity.
 Qed.
 
-(* white space that is no name character (all but U+1680, U+180E, U+FEFF) *)
+(* white space that is no name character (every white space character, since the repair of is_name_start_char) *)
 Definition pure_ws (c : N) : bool := NM.is_ws c && negb (NM.is_name_part c).
 
 Lemma pure_ws_facts : forall c, pure_ws c = true -> NM.is_ws c = true /\ NM.is_name_part c = false /\ NM.is_add_sym c = false.
@@ -133,7 +133,7 @@ Lemma name_of_word : forall n, forallb plain_char n = true -> name_of [n] = n.
 Proof.
   intros n H. unfold name_of, NM.name_new. cbn [map]. rewrite DV.C10.Trim.trim_id; [apply name_new_one|].
   apply Forall_forall. intros c Hc. rewrite forallb_forall in H. destruct (plain_facts c (H c Hc)) as [Hws Hnp].
-  apply name_clean_nws; [exact Hnp|]. intro E. subst c. discriminate Hws.
+  apply name_nws. exact Hnp.
 Qed.
 
 Lemma plain_name_parts : forall w, forallb plain_char w = true -> forallb NM.is_name_part w = true.
@@ -143,11 +143,11 @@ Qed.
 
 Local Open Scope N_scope.
 
-Lemma scan_bind : forall keys fl n g rest, word_ok n = true -> NM.str_eqb n NM.str_item = false -> f_tillin fl = true ->
+Lemma scan_bind : forall keys fl n g rest, word_ok n = true -> f_tillin fl = true ->
   forallb pure_ws g = true -> stops_name rest = true ->
   scan keys fl (n ++ 32 :: g ++ 105 :: 110 :: rest) = RTok (LName n) (set_tillin false (clr_unary fl)) (32 :: g ++ 105 :: 110 :: rest).
 Proof.
-  intros keys fl n g rest Hword Hitem Htill Hg Hr.
+  intros keys fl n g rest Hword Htill Hg Hr.
   destruct n as [|x w]; [discriminate Hword|]. pose proof (word_ok_plain _ Hword) as Hplain.
   unfold word_ok in Hword. rewrite !andb_true_iff in Hword. destruct Hword as [[Hx _] Hkw]. apply negb_true_iff in Hkw.
   cbn [app]. rewrite scan_word by assumption.
@@ -155,7 +155,10 @@ Proof.
   { apply plain_name_parts. cbn [forallb] in Hplain. apply andb_true_iff in Hplain. tauto. }
   assert (HG : forallb pure_ws (32 :: g) = true) by (cbn [forallb]; rewrite Hg; reflexivity).
   destruct (collect_bind x w 32 g rest Hw HG Hr) as [ps [cs [e Hc]]].
-  unfold name_token. cbn [app] in Hc. rewrite Hc. cbv beta iota. rewrite Hitem.
+  unfold name_token. cbn [app] in Hc. rewrite Hc. cbv beta iota.
+  destruct (NM.str_eqb (x :: w) NM.str_item) eqn:Hitem.
+  { (* `item`: the branch in front of the till_in test gives the same token and clears the flag as well *)
+    apply str_eqb_eq in Hitem. cbn [nth skipn]. rewrite skipn_exact. rewrite <- Hitem. reflexivity. }
   assert (Ht : f_tillin (clr_unary fl) = true) by (destruct fl; exact Htill). rewrite Ht.
   cbn [NM.index_of]. rewrite (not_kw_not_in _ Hkw). change (NM.str_eqb [105; 110] NM.str_in) with true. cbv iota.
   cbn [firstn nth]. pose proof (name_of_word _ Hplain) as En. unfold NM.str, str in *. rewrite En. cbn [skipn]. rewrite skipn_exact. reflexivity.
@@ -196,13 +199,13 @@ Inductive tcase (keys : list str) (fl : flags) (t : ltoken) (r : list ltoken) : 
 | TcOld : f_tillin fl = false -> tok_ok keys fl t = true -> tcase keys fl t r
 | TcHdr : f_tillin fl = false -> (exists k, t = LKw k /\ (k = KFor \/ k = KSome \/ k = KEvery)) -> tcase keys fl t r
 | TcFun : f_tillin fl = false -> t = LKw KFunction -> (exists r', r = LSym SLp :: r') -> tcase keys fl t r
-| TcBind : f_tillin fl = true -> (exists n r', t = LName n /\ word_ok n = true /\ NM.str_eqb n NM.str_item = false /\ r = LKw KIn :: r') -> tcase keys fl t r.
+| TcBind : f_tillin fl = true -> (exists n r', t = LName n /\ word_ok n = true /\ r = LKw KIn :: r') -> tcase keys fl t r.
 
 Lemma tok_ok_b_cases : forall keys fl t r, tok_ok_b keys fl t r = true -> tcase keys fl t r.
 Proof.
   intros keys fl t r H. unfold tok_ok_b in H. destruct (f_tillin fl) eqn:Et.
-  - destruct t as [k|s|b| |b a|s|n|n|n]; try discriminate H. rewrite !andb_true_iff in H. destruct H as [[H1 H2] H3].
-    apply negb_true_iff in H2. destruct r as [|t2 r']; [discriminate H3|]. destruct t2 as [k| | | | | | | |]; try discriminate H3. destruct k; try discriminate H3.
+  - destruct t as [k|s|b| |b a|s|n|n|n]; try discriminate H. rewrite !andb_true_iff in H. destruct H as [H1 H3].
+    destruct r as [|t2 r']; [discriminate H3|]. destruct t2 as [k| | | | | | | |]; try discriminate H3. destruct k; try discriminate H3.
     apply TcBind; [exact Et|]. exists n, r'. auto.
   - destruct t as [k|s|b| |b a|s|n|n|n]; try (apply TcOld; [exact Et|exact H]).
     destruct k; try (apply TcOld; [exact Et|exact H]).
@@ -228,26 +231,6 @@ Proof.
   - destruct Hk as [-> | [-> | ->]]; reflexivity.
   - reflexivity.
   - cbn [tok_text]. apply word_text_start. exact Hw.
-Qed.
-
-Lemma tok_clean_b : forall keys fl t r, keys_ok keys = true -> tok_ok_b keys fl t r = true -> clean (tok_text t).
-Proof.
-  intros keys fl t r Hkeys H. destruct (tok_ok_b_cases _ _ _ _ H) as [_ Ho|_ [k [-> Hk]]|_ -> _|_ [n [r' [-> [Hw _]]]]].
-  - eapply tok_clean; eauto.
-  - destruct Hk as [-> | [-> | ->]]; repeat constructor; discriminate.
-  - repeat constructor; discriminate.
-  - cbn [tok_text]. apply clean_plain. apply word_ok_plain. exact Hw.
-Qed.
-
-Lemma unlex_lay_clean_b : forall keys, keys_ok keys = true -> forall ts gaps st fl, printable_b keys st fl ts = true ->
-  forallb gap_ok gaps = true -> clean (unlex_lay gaps ts).
-Proof.
-  intros keys Hkeys. induction ts as [|t r IH]; intros gaps st fl Hp Hg; [constructor|].
-  cbn [printable_b] in Hp. apply andb_true_iff in Hp. destruct Hp as [Ht Hr]. cbn [unlex_lay].
-  apply Forall_app. split; [eapply tok_clean_b; eauto|]. constructor; [discriminate|]. apply Forall_app. split.
-  - destruct gaps as [|g gaps]; [constructor|]. cbn [hd]. cbn [forallb] in Hg. apply andb_true_iff in Hg. destruct Hg as [Hg _].
-    unfold gap_ok in Hg. apply andb_true_iff in Hg. apply layout_clean. tauto.
-  - eapply IH; [exact Hr|]. destruct gaps as [|g gaps]; [reflexivity|]. cbn [forallb] in Hg. apply andb_true_iff in Hg. cbn [tl]. tauto.
 Qed.
 
 (* a gap of white space pieces is a run of white space characters that are no name characters *)
@@ -277,12 +260,11 @@ Proof.
     rewrite next_token_lay by (exact Hps || (eapply tok_start_b; eauto)).
     assert (Hgs : gap_ok (hd [] gaps) = true /\ forallb gap_ok (tl gaps) = true).
     { destruct gaps as [|g gaps]; [split; reflexivity|]. cbn [forallb] in Hg. apply andb_true_iff in Hg. exact Hg. }
-    destruct Hgs as [Hg1 Hg2]. unfold gap_ok in Hg1. apply andb_true_iff in Hg1. destruct Hg1 as [Hg1 Hg1c].
+    destruct Hgs as [Hg1 Hg2]. unfold gap_ok in Hg1.
     assert (Hscan : scan keys fl (tok_text t ++ 32%N :: render_layout (hd [] gaps) ++ unlex_lay (tl gaps) r)
                     = RTok t (after_b fl t) (32%N :: render_layout (hd [] gaps) ++ unlex_lay (tl gaps) r)).
-    { destruct (tok_ok_b_cases _ _ _ _ Ht) as [Htill Ho|Htill [k [-> Hk]]|Htill -> [r' ->]|Htill [n [r' [-> [Hw [Hi ->]]]]]].
-      - rewrite (after_b_old fl t Htill). apply scan_tok; try assumption.
-        apply Forall_app. split; [apply layout_clean; exact Hg1c|]. eapply unlex_lay_clean_b; eauto.
+    { destruct (tok_ok_b_cases _ _ _ _ Ht) as [Htill Ho|Htill [k [-> Hk]]|Htill -> [r' ->]|Htill [n [r' [-> [Hw ->]]]]].
+      - rewrite (after_b_old fl t Htill). apply scan_tok; assumption.
       - rewrite (after_b_old _ _ Htill). cbn [tok_text]. rewrite scan_hdr by exact Hk. destruct Hk as [-> | [-> | ->]]; reflexivity.
       - rewrite (after_b_old _ _ Htill). cbn [tight_after] in Htight. destruct (ws_gap_chars _ Htight) as [_ Hws].
         cbn [unlex_lay tok_text sym_text]. cbn [tok_text kw_text].
